@@ -47,7 +47,7 @@ CHECKS = {
 
  "C08": dict(
   cat="exploration", ref="DESIGN.md §4 C08, Appendix A.5",
-  technique="generated macro bodies (grammar-based, each macro with its own key alphabet) x generated press/release histories; the harness expands every body itself and parses the OS output per activation against that expansion (complete runs, or prefix + clean-up where cancellation is possible), with timing lower bounds and cancellation invariants; proptest shrinking",
+  technique="generated macro bodies (grammar-based, each macro with its own key alphabet) x generated press/release histories; the harness expands every body itself and parses the OS output per activation against that expansion (complete runs, or prefix + clean-up where cancellation is possible), with timing lower bounds and cancellation invariants; plus a cancellation sweep (differential: the same activation with and without the cancel trigger, the trigger at every millisecond of the run, exact cut-off) and eviction bursts; proptest shrinking",
   text="For 1-6 macro keys in all variants the OS transitions on each macro's private keys are segmented by activation and must be complete repetitions of the harness's own expansion of the body (press/release order, modifier groups, nested lists; set semantics for keys pressed twice), each step at least 1 ms after the previous one and not earlier than the stated delays; nothing before the trigger, nothing down at the end; in configs without cancel variants every activation of a plain / repeating macro completes regardless of other keys typed; a repeating macro starts no round after its release was processed; no macro press after a release-cancel or cancel-on-press trigger took effect.",
   note="Times are lower bounds (the statement says 'at least'). Cancel variants cancel every running macro (documented), so completeness is only demanded in configs without them. With more than 4 macros running at once (documented limit) only 'nothing before the trigger, nothing left down' is demanded. Re-activating a macro while a copy may still run is skipped. F38 (cancel window overwritten) was found here and repaired."),
 
@@ -78,7 +78,7 @@ CHECKS = {
   cat="exploration", ref="DESIGN.md §4 C13",
   technique="exhaustive enumeration of all ordered active-key lists (<= 4 of 12 keys) per override table against a reference function (tables compiled by the real parser, real Overrides::override_keys), plus proptest-generated press/release histories through the whole state machine with a quiescent-point invariant",
   text="For each override table every ordered list of up to 4 distinct keys from 8 modifiers + 4 keys (13 345 lists) is transformed by the real code and compared, as a key set, with the reference (containment of the modifier set, most modifiers wins, replaced keys removed, outputs added, other keys untouched). Through the pipeline, at every quiescent point the OS key set must equal the reference applied to the keys the layout holds, and nothing may stay down after the last release (override-release-on-activation on and off).",
-  note="Where the statement is silent the oracle is a validity predicate: a modifier listed after the key may or may not count; ties between overrides with equally many modifiers may go either way. With override-release-on-activation only the end state is asserted."),
+  note="Where the statement is silent the oracle is a validity predicate: a modifier listed after the key may or may not count; ties between overrides with equally many modifiers may go either way. With override-release-on-activation only the end state and the two physical-truth invariants are asserted. Two invariants do not rely on the layout's own key list (which a defect may erase): a key going down at the OS without having been physically down needs its override's whole input combination physically down in the 8 ms before; keys all pressed after the last moment a combination was complete come out exactly as pressed."),
 
  "C14": dict(
   cat="exploration", ref="DESIGN.md §4 C14",
